@@ -40,12 +40,12 @@ class SigmoidTransform(Transform):
         self.width = upper - lower
 
     def forward(self, x: ArrayLike) -> Array:
-        y = 1.0 / (1.0 + save_exp(-x))
+        y = jax.nn.sigmoid(x)
         return self.lower + self.width * y
 
     def inverse(self, y: ArrayLike) -> Array:
         x = (y - self.lower) / self.width
-        x = -jnp.log((1.0 / x) - 1.0)
+        x = jnp.log(x) - jnp.log1p(-x)
         return x
 
 
@@ -62,10 +62,13 @@ class SoftplusTransform(Transform):
         self.lower = lower
 
     def forward(self, x: ArrayLike) -> Array:
-        return jnp.log1p(save_exp(x)) + self.lower
+        return jax.nn.softplus(x) + self.lower
 
     def inverse(self, y: ArrayLike) -> Array:
-        return jnp.log(save_exp(y - self.lower) - 1.0)
+        # Stable version of `log(exp(z) - 1)`: does not saturate for large `z` and
+        # does not cancel for small `z`.
+        z = y - self.lower
+        return z + jnp.log(-jnp.expm1(-z))
 
 
 class NegSoftplusTransform(SoftplusTransform):
